@@ -222,6 +222,7 @@ func c01History(o *hx.Out, steps []c01Step, tags ...string) (err error) {
 	ft := &c01Fmt{seen: map[uint64]bool{}}
 	var sx []hx.Sx
 	found := map[string]bool{}       // known-finding classes the written records fall under
+	nameClass := map[string]bool{}   // keyword-like names among the results written
 	unitSeen := map[[2]string]bool{} // (tidied unit, key) of the unit-metadata records written so far
 	// class bookkeeping: a key added into the slot just vacated by a deletion
 	// (no other key added in between) with the opposite kind of the deleted entry
@@ -309,6 +310,9 @@ func c01History(o *hx.Out, steps []c01Step, tags ...string) (err error) {
 			cx = append(cx, hx.L(hx.S(c.Key), hx.B(c.Value), hx.Bool(c.File)))
 		}
 		c01ResultTags(res, found)
+		if c := c01NameClass(st.Name); c != "" {
+			nameClass[c] = true
+		}
 		if e := w.Write(res); e != nil {
 			return e
 		}
@@ -334,6 +338,11 @@ func c01History(o *hx.Out, steps []c01Step, tags ...string) (err error) {
 	}
 	if ft.diff > 0 {
 		o.Count("fmt-%v-differs-from-strconv-g")
+	}
+	for _, c := range []string{"name-starts-with-Benchmark", "name-looks-like-format-keyword"} {
+		if nameClass[c] {
+			o.Count("class:history:" + c)
+		}
 	}
 	if recycledOpp > 0 {
 		o.Count("class:history:key-added-into-recycled-slot-of-opposite-kind")
@@ -385,6 +394,24 @@ var c01BlankVals = []string{" v", "\tx y", "  ", " \tv", "  linux"}
 var c01LFVals = []string{"a\nnot a line", "a\nj9: injected", "x\n", "\nz", "a\r\nb", "v\n\nw", "linux\nj9: injected\nmore text"}
 var c01BadKeys = []string{"Key", "k 1", "kK", "1k", ""}
 var c01SpaceNames = []string{"a b", "X 5", "a\tb", "Fib/n=10 -8"}
+
+// c01KeywordNames: names that themselves start with the line prefix "Benchmark"
+// (the line reads BenchmarkBenchmark...) or look like another keyword of the
+// format.  All are one field without upper-case-initial trouble for the
+// reader: they must read back unchanged.
+var c01KeywordNames = []string{"BenchmarkDecode-8", "BenchmarksPerSecond-8", "BenchmarkQueue/depth=4", "Benchmark", "BenchmarkBenchmarkX",
+	"Benchmark-8", "Benchmarks", "Unit", "PASS", "ok", "FAIL", "Unit/op", "benchmark", "BenchmarkUnit", "okBenchmark"}
+
+// c01NameClass: the class of a benchmark name for the distribution record.
+func c01NameClass(n string) string {
+	switch {
+	case strings.HasPrefix(n, "Benchmark"):
+		return "name-starts-with-Benchmark"
+	case n == "Unit" || n == "PASS" || n == "ok" || n == "FAIL" || n == "benchmark" || strings.HasPrefix(n, "Unit") || strings.HasPrefix(n, "ok"):
+		return "name-looks-like-format-keyword"
+	}
+	return ""
+}
 
 func c01GenHistory(r *hx.Rng, h c01Hostile) []c01Step {
 	n := r.Range(1, 12)
@@ -513,6 +540,9 @@ func c01GenHistory(r *hx.Rng, h c01Hostile) []c01Step {
 		order = no
 		st.Name = []string{"X", "Fib/n=10-8", "é", "", "Enc/size=1k", "a:b"}[r.Intn(6)]
 		st.Iters = []int{1, 100, 0, -5, math.MaxInt64, 20000, math.MinInt64}[r.Intn(7)]
+		if r.Chance(0.12) {
+			st.Name = c01KeywordNames[r.Intn(len(c01KeywordNames))]
+		}
 		if h.name && r.Chance(0.3) {
 			st.Name = c01SpaceNames[r.Intn(len(c01SpaceNames))]
 		}
@@ -571,6 +601,7 @@ func c01Text(o *hx.Out, dir string, names, contents, paths []string, tags ...str
 	crValue := false
 	last, changes, sameLen := map[string]string{}, map[string]int{}, 0
 	longLine := false
+	nameClass := map[string]bool{}
 	for files.Scan() {
 		rec := files.Result()
 		if e := ob.add(rec); e != nil {
@@ -585,6 +616,9 @@ func c01Text(o *hx.Out, dir string, names, contents, paths []string, tags ...str
 			}
 			if c01ReprintLen(rec) >= 65536 {
 				longLine = true
+			}
+			if c := c01NameClass(rec.Name.String()); c != "" {
+				nameClass[c] = true
 			}
 			for _, c := range rec.Config {
 				if !c.File {
@@ -628,6 +662,11 @@ func c01Text(o *hx.Out, dir string, names, contents, paths []string, tags ...str
 		tags = append(tags, "C01_reprinted_line_exceeds_scanner_limit")
 		o.Count("class:text:reprinted-line>=64KiB")
 	}
+	for _, c := range []string{"name-starts-with-Benchmark", "name-looks-like-format-keyword"} {
+		if nameClass[c] {
+			o.Count("class:text:" + c)
+		}
+	}
 	if sameLen >= 3 {
 		o.Count("class:text:file-value-changes-to-same-length>=3 (same Result streamed reader->writer)")
 	}
@@ -641,7 +680,7 @@ func c01Text(o *hx.Out, dir string, names, contents, paths []string, tags ...str
 }
 
 func genC01(o *hx.Out, r *hx.Rng, tier string, replay string) error {
-	o.Rule = "(a) histories of 1-12 records written by benchfmt.Writer: results whose configuration is edited between writes through the API over 1-5 keys (add / re-add as file or internal key, change, in-place value change, delete, flip file<->internal, SetConfig on a file key, no change; a deletion together with a change or deletion of the next key in the writer's order), 1-3 measurements from {0,-0,+-Inf,NaN,subnormal,17-significant-digit,random bits} x {rescaled by Tidy, plain, API-built without original}, unit-metadata and SyntaxError records in between; (b) arbitrary texts from the C02 generator (1-3 files, label=path arguments) through the cmd/benchfilter loop (Files -> Filter \"*\" -> Writer), 35% of the files from a churn generator (1-3 keys, the main key taking 4-8 successive values of ONE length with 1-2 results after each change, other keys changed / deleted / re-added around it, unit and foreign lines); (c) the REAL cmd/benchfilter binary built from the module under test, run on such files (1-3 files, label=path, repeated paths; 15% through stdin) with the queries *, key:value and .unit:literal (mostly naming a key/value/unit present in the input), its stdout read back and compared with the filtered record stream (results, file configuration, unit metadata); (d) one Reader reused through Reset over 2-4 inputs, with and without an initial label on the key that the first line of the input sets, every record streamed into one Writer. Histories favour re-adding the key just deleted (or another key) with the opposite kind into the vacated slot. The written bytes are read back by benchfmt.Reader. Records the line format cannot express are generated on purpose, each class switched on in about 2.5% of the histories plus directed witnesses, and tagged FROM THE RECORDS WRITTEN (not from the option): a file value ending in CR (C01_value_ends_with_CR), starting with a blank/tab or all blank (C01_value_starts_with_blank), containing LF with an inert rest, a rest that sets a fresh key j9, an empty first line, CR LF (C01_value_contains_LF), emptied in place (C01_empty_file_value); a file key that is no key of the format: Key, \"k 1\", kK, 1k, empty (C01_file_key_not_a_key); a result without measurements (C01_result_without_measurements) or with white space in its name (C01_name_with_white_space); a unit-metadata record repeated for its (tidied unit, key) with the same or another value (C01_repeated_unit_metadata); the same shapes on INTERNAL configuration as an untagged control. Tagged too is C01_reprinted_line_exceeds_scanner_limit (1-2 texts with a result line just under 64 KiB whose measurements re-print longer, 1e9 -> 1e+09, so that the written line exceeds the reader's line limit). non-trivial = more than one record; distinct by history / input bytes"
+	o.Rule = "(a) histories of 1-12 records written by benchfmt.Writer: results whose configuration is edited between writes through the API over 1-5 keys (add / re-add as file or internal key, change, in-place value change, delete, flip file<->internal, SetConfig on a file key, no change; a deletion together with a change or deletion of the next key in the writer's order), 1-3 measurements from {0,-0,+-Inf,NaN,subnormal,17-significant-digit,random bits} x {rescaled by Tidy, plain, API-built without original}, unit-metadata and SyntaxError records in between; (b) arbitrary texts from the C02 generator (1-3 files, label=path arguments) through the cmd/benchfilter loop (Files -> Filter \"*\" -> Writer), 35% of the files from a churn generator (1-3 keys, the main key taking 4-8 successive values of ONE length with 1-2 results after each change, other keys changed / deleted / re-added around it, unit and foreign lines); (c) the REAL cmd/benchfilter binary built from the module under test, run on such files (1-3 files, label=path, repeated paths; 15% through stdin) with the queries *, key:value and .unit:literal (mostly naming a key/value/unit present in the input), its stdout read back and compared with the filtered record stream (results, file configuration, unit metadata); (d) one Reader reused through Reset over 2-4 inputs, with and without an initial label on the key that the first line of the input sets, every record streamed into one Writer. Histories favour re-adding the key just deleted (or another key) with the opposite kind into the vacated slot. The written bytes are read back by benchfmt.Reader. Records the line format cannot express are generated on purpose, each class switched on in about 2.5% of the histories plus directed witnesses, and tagged FROM THE RECORDS WRITTEN (not from the option): a file value ending in CR (C01_value_ends_with_CR), starting with a blank/tab or all blank (C01_value_starts_with_blank), containing LF with an inert rest, a rest that sets a fresh key j9, an empty first line, CR LF (C01_value_contains_LF), emptied in place (C01_empty_file_value); a file key that is no key of the format: Key, \"k 1\", kK, 1k, empty (C01_file_key_not_a_key); a result without measurements (C01_result_without_measurements) or with white space in its name (C01_name_with_white_space); a unit-metadata record repeated for its (tidied unit, key) with the same or another value (C01_repeated_unit_metadata); the same shapes on INTERNAL configuration as an untagged control. Tagged too is C01_reprinted_line_exceeds_scanner_limit (1-2 texts with a result line just under 64 KiB whose measurements re-print longer, 1e9 -> 1e+09, so that the written line exceeds the reader's line limit). Names that START WITH the line prefix themselves (API name BenchmarkDecode-8 / BenchmarkQueue/depth=4, text line BenchmarkBenchmarkDecode-8 ...) or look like another keyword of the format (Unit, PASS, ok, FAIL, benchmark, Benchmarks): 12% of the results of a history, 15% of the benchmark lines of the churn texts (text, binary and Reset routes), one directed history per such name and two fixed texts; judged like every name (it reads back unchanged). non-trivial = more than one record; distinct by history / input bytes"
 	nh, nt, nb, nr := 1500, 400, 220, 300
 	if tier == "thorough" {
 		nh, nt, nb, nr = 40000, 8000, 3000, 6000
@@ -671,6 +710,12 @@ func genC01(o *hx.Out, r *hx.Rng, tier string, replay string) error {
 		{one(kv("setfile", "a", "1"), kv("setfile", "b", "2")), one(kv("set", "b", ""), kv("set", "c", "3"))},
 		{one(kv("set", "a", "1"), kv("set", "b", "2")), one(kv("set", "b", ""), kv("setfile", "c", "3"))},
 		{one(kv("setfile", "a", "1"), kv("setfile", "b", "2"), kv("setfile", "c", "3")), one(kv("set", "a", ""), kv("set", "b", "")), one(kv("set", "b", "2"), kv("set", "a", "1"))},
+	}
+	for _, n := range c01KeywordNames {
+		// API records whose name starts with the line prefix or looks like a keyword
+		a, b := one(kv("setfile", "k", "v")), one()
+		a.Name, b.Name = n, n+"/sub=1-8"
+		directed = append(directed, []c01Step{a, b, one()})
 	}
 	for _, h := range directed {
 		if err := c01History(o, h, "directed"); err != nil {
@@ -736,6 +781,9 @@ func genC01(o *hx.Out, r *hx.Rng, tier string, replay string) error {
 		// one key, four values of one length, a result after each (the reader reuses the value buffer)
 		"goos: linux\nBenchmarkX 1 1 ns/op\ngoos: amd64\nBenchmarkX 1 1 ns/op\ngoos: win32\nBenchmarkX 1 1 ns/op\ngoos: plan9\nBenchmarkX 1 1 ns/op\ngoos: linux\nBenchmarkX 1 1 ns/op\n",
 		"k: a\nj: x\nBenchmarkX 1 1 ns/op\nk: b\nBenchmarkX 1 1 ns/op\nk: c\nBenchmarkY 1 1 ns/op\nk: a\nBenchmarkX 2 1 ns/op\nk: b\nBenchmarkX 1 1 ns/op\n"}
+	fixed = append(fixed,
+		"BenchmarkBenchmarkDecode-8 100 12.5 ns/op\nBenchmarkBenchmarksPerSecond-8 5 2 MB/s\nBenchmarkBenchmark 1 1 ns/op\nBenchmarkBenchmarkBenchmarkX 1 1 ns/op\n",
+		"k: v\nBenchmarkUnit 1 1 ns/op\nBenchmarkPASS 2 2 ns/op\nBenchmarkok 3 3 ns/op\nUnit ns/op better=lower\nPASS\nok  \tpkg\t1.2s\nBenchmarkFAIL 1 1 ns/op\nBenchmarkBenchmarkQueue/depth=4 7 1 widgets\n")
 	for _, t := range fixed {
 		if err := c01Text(o, dir, []string{"a"}, []string{t}, []string{"a"}, "fixed"); err != nil {
 			return err
